@@ -69,3 +69,23 @@ package fasthttp
 //@   end
 //@   loop 1:
 //@     iter cfgForAddr = false
+
+// tlsClientHandshake: on success the connection returned is the crypto/tls client wrapped around rawConn with
+// the given config, after a completed handshake; on failure the raw connection is closed.
+//@ func tlsClientHandshake results rc retErr
+//@   property C21
+//@   mode skeleton
+//@   ghost tlsID int = 0
+//@   ghost shaken bool = false
+//@   ghost closedRaw int = 0
+//@   on call tls.Client(cn, cfg) -> t:
+//@     requires[wraps-the-dialled-conn] cn == rawConn && cfg == tlsConfig
+//@     effect tlsID = t
+//@     ensures t != nil
+//@   on call tls.Conn.Handshake -> e:
+//@     effect shaken = (e == nil)
+//@   on call net.Conn.Close:
+//@     effect closedRaw = closedRaw + 1
+//@   end
+//@   ensures[returns-the-tls-conn] retErr == nil ==> rc == tlsID && tlsID != 0 && shaken
+//@   ensures[raw-closed-on-error] retErr != nil ==> closedRaw == 1 && rc == nil
